@@ -161,7 +161,8 @@ enum Stmt {
     DeleteRel(Vec<RKey>),
     MergeNode(Vec<(Vec<u8>, Vec<(u8, Val)>, Vec<(u8, Val)>, Vec<(u8, Val)>)>),
     SetRelProp(Vec<(RKey, u8, Val)>),
-    MergeRel(Vec<(RKey, Vec<(u8, Val)>, Vec<(u8, Val)>, Vec<(u8, Val)>)>),
+    /// (pattern as written: left, type, right; direction 0 `->`, 1 `<-`, 2 undirected; pattern map; ON CREATE; ON MATCH)
+    MergeRel(Vec<(RKey, u8, Vec<(u8, Val)>, Vec<(u8, Val)>, Vec<(u8, Val)>)>),
     SetRelMap(Vec<(RKey, bool, Vec<(u8, Val)>)>),
     RemoveRelProp(Vec<(RKey, u8)>),
     Chain(Vec<Stmt>),
@@ -184,7 +185,7 @@ impl Stmt {
             Stmt::DeleteRel(k) => format!("UDeleteRel {}", coq_list(k, |(s, t, d)| format!("({}, {}, {})", cn(*s as u128), cn(*t as u128), cn(*d as u128)))),
             Stmt::MergeNode(r) => format!("UMergeNode {}", coq_list(r, |(l, p, oc, om)| format!("({}, {}, {}, {})", cls(l), ckv(p), ckv(oc), ckv(om)))),
             Stmt::SetRelProp(r) => format!("USetRelProp {}", coq_list(r, |((s, t, d), k, v)| format!("(({}, {}, {}), {}, {})", cn(*s as u128), cn(*t as u128), cn(*d as u128), cn(*k as u128), v.coq()))),
-            Stmt::MergeRel(r) => format!("UMergeRel {}", coq_list(r, |((s, t, d), p, oc, om)| format!("(({}, {}, {}), {}, {}, {})", cn(*s as u128), cn(*t as u128), cn(*d as u128), ckv(p), ckv(oc), ckv(om)))),
+            Stmt::MergeRel(r) => format!("UMergeRel {}", coq_list(r, |((s, t, d), dir, p, oc, om)| format!("(({}, {}, {}), {}, {}, {}, {})", cn(*s as u128), cn(*t as u128), cn(*d as u128), cn(*dir as u128), ckv(p), ckv(oc), ckv(om)))),
             Stmt::SetRelMap(r) => format!("USetRelMap {}", coq_list(r, |(k, a, m)| format!("({}, {}, {})", ckey(k), coq_bool(*a), ckv(m)))),
             Stmt::RemoveRelProp(r) => format!("URemoveRelProp {}", coq_list(r, |(k, p)| format!("({}, {})", ckey(k), cn(*p as u128)))),
             Stmt::Chain(cs) => format!("UChain {}", coq_list(cs, |c| format!("({})", c.coq()))),
@@ -277,16 +278,23 @@ impl Ref {
                 // overlay: relationships created by earlier rows of this statement, each with its pattern map
                 let mut overlay: Vec<(RKey, Props)> = vec![];
                 let m = |have: &Props, ps: &Vec<(u8, Val)>| ps.iter().all(|(k, v)| have.get(k).map(|w| pv_eq(w, v)).unwrap_or(false));
-                for (key, ps, oc, om) in rows {
-                    let matched = pre.rels.get(key).map(|e| m(&e.1, ps)).unwrap_or(false) || overlay.iter().any(|(k, p)| k == key && m(p, ps));
-                    let e = self.rels.entry(*key).or_insert((0, Props::new()));
-                    if matched {
-                        for (k, v) in om { pset(&mut e.1, *k, v); }
+                for (wkey, dir, ps, oc, om) in rows {
+                    let flip = (wkey.2, wkey.1, wkey.0);
+                    // `->` looks for left->right, `<-` for right->left, undirected for both
+                    let lookup: Vec<RKey> = match dir { 0 => vec![*wkey], 1 => vec![flip], _ => vec![*wkey, flip] };
+                    let matched: Vec<RKey> = lookup.into_iter().filter(|key| pre.rels.get(key).map(|e| m(&e.1, ps)).unwrap_or(false) || overlay.iter().any(|(k, p)| k == key && m(p, ps))).collect();
+                    if !matched.is_empty() {
+                        for key in matched {
+                            if let Some(e) = self.rels.get_mut(&key) { for (k, v) in om { pset(&mut e.1, *k, v); } }
+                        }
                     } else {
+                        // an undirected pattern is created left -> right
+                        let key = if *dir == 1 { flip } else { *wkey };
+                        let e = self.rels.entry(key).or_insert((0, Props::new()));
                         e.0 += 1;
                         for (k, v) in ps { e.1.insert(*k, v.clone()); } // stored as given, nulls included
                         for (k, v) in oc { pset(&mut e.1, *k, v); }
-                        overlay.push((*key, ps.iter().cloned().collect()));
+                        overlay.push((key, ps.iter().cloned().collect()));
                         c += 1;
                     }
                 }
@@ -491,8 +499,11 @@ fn gen_stmt(r: &mut Rng, db: &Db, rf: &Ref, deleted_keys: &BTreeSet<RKey>) -> Re
         let ids = ids_of(db, &q, params)?;
         Ok((m, ids))
     };
-    let w = r.below(100);
+    let mut w = r.below(100);
     let special = r.below(100);
+    if (13..22).contains(&special) && live.len() >= 2 {
+        w = 94; // relationship MERGE (all three directions, both stored orientations)
+    }
     let out = if special < 8 && !live.is_empty() {
         // a chain of two or three SET / REMOVE clauses in one statement
         let (m, ids) = selector(r, &mut params)?;
@@ -624,10 +635,20 @@ fn gen_stmt(r: &mut Rng, db: &Db, rf: &Ref, deleted_keys: &BTreeSet<RKey>) -> Re
         // tracks the relationships it created individually, the storage keeps one property map per key)
         let (mut a, mut b) = (*r.pick(&live), *r.pick(&live));
         let mut t = r.below(2) as u8;
-        if !rf.rels.is_empty() && r.chance(1, 2) { let keys: Vec<RKey> = rf.rels.keys().cloned().collect(); let k = *r.pick(&keys); a = k.0; t = k.1; b = k.2; }
-        if deleted_keys.contains(&(a, t, b)) { return Ok(None); }
+        // direction of the pattern as written; with an existing relationship, the pattern's endpoints are
+        // taken in the stored orientation or reversed (both orientations of the existing edge)
+        let dir: u8 = match r.below(8) { 0..=2 => 0, 3 | 4 => 1, _ => 2 };
+        if !rf.rels.is_empty() && r.chance(2, 3) {
+            let keys: Vec<RKey> = rf.rels.keys().cloned().collect();
+            let k = *r.pick(&keys);
+            t = k.1;
+            if r.chance(1, 2) { a = k.0; b = k.2; } else { a = k.2; b = k.0; }
+        }
+        let created_key = if dir == 1 { (b, t, a) } else { (a, t, b) };
+        if deleted_keys.contains(&created_key) || deleted_keys.contains(&(b, t, a)) || deleted_keys.contains(&(a, t, b)) { return Ok(None); }
+        let (larrow, rarrow) = match dir { 0 => ("-", "->"), 1 => ("<-", "-"), _ => ("-", "-") };
         let ks = distinct_keys(r, 0, 3, &[0, 1]);
-        let held: Vec<Val> = rf.rels.get(&(a, t, b)).map(|e| e.1.values().cloned().collect()).unwrap_or_default();
+        let held: Vec<Val> = rf.rels.get(&(a, t, b)).or(rf.rels.get(&(b, t, a))).map(|e| e.1.values().cloned().collect()).unwrap_or_default();
         let ps: Vec<(u8, Val)> = ks.iter().map(|k| (*k, if !held.is_empty() && r.chance(1, 2) { r.pick(&held).clone() } else { gen_val(r, 1) })).collect();
         let oc: Vec<(u8, Val)> = if r.chance(1, 2) { vec![(2, gen_val(r, 1))] } else { vec![] };
         let om: Vec<(u8, Val)> = if r.chance(1, 2) { vec![(3, gen_val(r, 2))] } else { vec![] };
@@ -645,11 +666,11 @@ fn gen_stmt(r: &mut Rng, db: &Db, rf: &Ref, deleted_keys: &BTreeSet<RKey>) -> Re
             }
             params.insert("rows", Value::List(rows.iter().map(|m| map_value(m)).collect()));
             let body: Vec<String> = ks.iter().map(|k| format!("{0}: r.{0}", KEYS[*k as usize])).collect();
-            let q = format!("MATCH (a), (b) WHERE id(a) = $a AND id(b) = $b UNWIND $rows AS r MERGE (a)-[x:{} {{{}}}]->(b){}", TYPES[t as usize], body.join(", "), tail.replace(" r.", " x."));
-            (q, Stmt::MergeRel(rows.into_iter().map(|m| ((a, t, b), m, oc.clone(), om.clone())).collect()))
+            let q = format!("MATCH (a), (b) WHERE id(a) = $a AND id(b) = $b UNWIND $rows AS r MERGE (a){larrow}[x:{} {{{}}}]{rarrow}(b){}", TYPES[t as usize], body.join(", "), tail.replace(" r.", " x."));
+            (q, Stmt::MergeRel(rows.into_iter().map(|m| ((a, t, b), dir, m, oc.clone(), om.clone())).collect()))
         } else {
-            let q = format!("MATCH (a), (b) WHERE id(a) = $a AND id(b) = $b MERGE (a)-[r:{} {}]->(b){tail}", TYPES[t as usize], map_text(r, &ps, &mut params, "g"));
-            (q, Stmt::MergeRel(vec![((a, t, b), ps, oc, om)]))
+            let q = format!("MATCH (a), (b) WHERE id(a) = $a AND id(b) = $b MERGE (a){larrow}[r:{} {}]{rarrow}(b){tail}", TYPES[t as usize], map_text(r, &ps, &mut params, "g"));
+            (q, Stmt::MergeRel(vec![((a, t, b), dir, ps, oc, om)]))
         }
     } else {
         // MERGE: pattern keys p0/p1, ON CREATE / ON MATCH keys p2/p3 (disjoint: the executor matches
@@ -737,6 +758,11 @@ fn main() {
             };
             let Some((q, params, st)) = g else { continue };
             *hist.entry(format!("stmt:{}", st.kind())).or_insert(0) += 1;
+            if let Stmt::MergeRel(rows) = &st {
+                let (wk, dir) = (rows[0].0, rows[0].1);
+                let stored = if rf.rels.contains_key(&wk) && rf.rels.contains_key(&(wk.2, wk.1, wk.0)) { "both" } else if rf.rels.contains_key(&wk) { "as-written" } else if rf.rels.contains_key(&(wk.2, wk.1, wk.0)) { "reversed" } else { "none" };
+                *hist.entry(format!("merge-rel:{}/existing-{}", ["->", "<-", "undirected"][dir as usize], stored)).or_insert(0) += 1;
+            }
             let before = rf.clone();
             let mixed = r.chance(1, 2);
             *hist.entry(format!("entry:{}", if mixed { "execute_mixed" } else { "execute_write" })).or_insert(0) += 1;
@@ -772,12 +798,12 @@ fn main() {
                 if res.as_ref().ok() != Some(&0) || d.0.len() != before.nodes.len() || nrel(&d.1) != nrel(&before.rels) {
                     what = format!("repeated MERGE created something: reported {:?}, nodes {} -> {}", res, before.nodes.len(), d.0.len());
                     let nan = |ps: &Vec<(u8, Val)>| ps.iter().any(|(_, v)| matches!(v, Val::Float(b) if f64::from_bits(*b).is_nan()));
-                    let has_nan = match &st { Stmt::MergeNode(rows) => rows.iter().any(|row| nan(&row.1)), Stmt::MergeRel(rows) => rows.iter().any(|row| nan(&row.1)), _ => false };
+                    let has_nan = match &st { Stmt::MergeNode(rows) => rows.iter().any(|row| nan(&row.1)), Stmt::MergeRel(rows) => rows.iter().any(|row| nan(&row.2)), _ => false };
                     if has_nan && dump_eq(&d, &rf) { class = Some("K-C12-mergenan"); }
                     // relationships have no identity: rows of one statement that merge DIFFERENT pattern maps on
                     // one (src,type,dst) overwrite each other's properties, so the first pattern no longer matches
                     if let Stmt::MergeRel(rows) = &st {
-                        let differing = rows.iter().any(|x| rows.iter().any(|y| x.0 == y.0 && !(x.1.len() == y.1.len() && x.1.iter().zip(y.1.iter()).all(|(p, q)| p.0 == q.0 && pv_eq(&p.1, &q.1)))));
+                        let differing = rows.iter().any(|x| rows.iter().any(|y| x.0 == y.0 && !(x.2.len() == y.2.len() && x.2.iter().zip(y.2.iter()).all(|(p, q)| p.0 == q.0 && pv_eq(&p.1, &q.1)))));
                         if class.is_none() && differing && dump_eq(&d, &rf) && res.as_ref().ok().cloned() == expect { class = Some("K-C12-relidentity"); }
                     }
                 }
@@ -788,7 +814,7 @@ fn main() {
                 what = "a node or relationship stores a null property value".into();
                 let from_merge = match &st {
                     Stmt::MergeNode(rows) => rows.iter().any(|row| row.1.iter().any(|(_, v)| *v == Val::Null)),
-                    Stmt::MergeRel(rows) => rows.iter().any(|row| row.1.iter().any(|(_, v)| *v == Val::Null)),
+                    Stmt::MergeRel(rows) => rows.iter().any(|row| row.2.iter().any(|(_, v)| *v == Val::Null)),
                     _ => false,
                 };
                 if from_merge && dump_eq(&d, &rf) { class = Some("K-C12-mergenull"); }
